@@ -106,6 +106,8 @@ struct Ledger {
     /// Recovery phase: from this event on nothing misbehaves any more (every
     /// peer answers normally, every upstream is healthy, connects succeed).
     healed_seq: Option<u64>,
+    /// Requests of more than 65535 octets.
+    too_long: BTreeSet<usize>,
     /// The first request of the recovery phase.
     recovery_from_k: Option<usize>,
 }
@@ -629,7 +631,24 @@ async fn client_task(led: Led, kn: Knobs, conn: Conn, ks: Vec<usize>, gaps: Vec<
         if sim::stopped() {
             return;
         }
-        let msg = dns::mk_query(&format!("r{}.sim.", k), Rtype::A, true);
+        let mut msg = dns::mk_query(&format!("r{}.sim.", k), Rtype::A, true);
+        // Now and then a request that cannot be framed: more than 65535
+        // octets (a stream transport has to refuse it; it never reaches a
+        // wire, so nothing but the caller's own timeout budget - counted
+        // from the call - applies to it).
+        let too_long = led.borrow().healed_seq.is_none() && sim::chance("caller.request_too_long", 1, 25);
+        if too_long {
+            let mut ab = domain::base::MessageBuilder::new_vec().question();
+            ab.push((dns::name(&format!("r{}.sim.", k)), Rtype::A)).unwrap();
+            let mut ab = ab.additional();
+            for i in 0..3u8 {
+                let data = vec![b'x'; 22_000];
+                ab.push((dns::name(&format!("pad{}.sim.", i)), domain::base::iana::Class::IN, domain::base::Ttl::from_secs(1), domain::rdata::Txt::<Vec<u8>>::build_from_slice(&data).unwrap())).unwrap();
+            }
+            msg = ab.into_message();
+            fault(&led, Scope::Req(k), "fault.request_longer_than_a_frame_can_hold");
+            led.borrow_mut().too_long.insert(k);
+        }
         let req = RequestMessage::new(msg).expect("request");
         let start = sim::now_ns();
         {
@@ -638,7 +657,8 @@ async fn client_task(led: Led, kn: Knobs, conn: Conn, ks: Vec<usize>, gaps: Vec<
             // request invoked so far has been answered by the peer and the
             // idle timeout has elapsed since the last such answer, the
             // transport may have shut down (5 ms slack).
-            let earlier: Vec<usize> = (0..l.reqs.len()).filter(|j| l.reqs[*j].start_ns > 0 || l.reqs[*j].end.is_some()).collect();
+            // (A request that cannot be framed never occupies the connection.)
+            let earlier: Vec<usize> = (0..l.reqs.len()).filter(|j| (l.reqs[*j].start_ns > 0 || l.reqs[*j].end.is_some()) && !l.too_long.contains(j)).collect();
             // (The streaming request counts like any other: made, and
             // answered once the peer has sent its last message.)
             let xfer_made = l.xfer_start_ns.is_some();
@@ -1228,6 +1248,9 @@ fn check(led: &Led, kn: &Knobs, total: usize, finished: bool, connect_faults: &[
             Kind::Dgram => Some(dg_bound),
             Kind::Multi => Some(ms_bound),
             Kind::DgramStream => Some(dg_bound + ms_bound),
+            // (A request that cannot be framed never reaches the connection:
+            // its budget is the response timeout from the call.)
+            Kind::Stream if l.too_long.contains(&k) => Some(kn.st_response_timeout_ms * 1_000_000),
             Kind::Stream => {
                 let last_tx = l.stream_tx_ns.iter().filter(|t| **t <= *end_ns).max().copied().unwrap_or(0);
                 let base = last_tx.max(r.start_ns);
@@ -1336,7 +1359,7 @@ fn check(led: &Led, kn: &Knobs, total: usize, finished: bool, connect_faults: &[
                 }
             }
             Outcome::Abandoned => {}
-            Outcome::Err(e) if kn.kind == Kind::DgramStream && l.tc_sent_for.contains(&k) && l.stream_faults == 0 && connect_faults.is_empty() && kn.n_servers == 1 => {
+            Outcome::Err(e) if kn.kind == Kind::DgramStream && l.tc_sent_for.contains(&k) && l.stream_faults == 0 && connect_faults.is_empty() && kn.n_servers == 1 && !l.too_long.contains(&k) => {
                 // A truncated datagram answer is retried over the stream,
                 // with the stream's own budget: with a healthy stream side
                 // that attempt succeeds, however long the datagram phase took.
